@@ -252,6 +252,10 @@ bool CanettiGennaroJareckiKrawczykRabinRVSS::CheckGroup
 			throw false;
 		mpz_div(k, k, q);
 
+		// Check whether $p$ and $q$ are positive.
+		if ((mpz_sgn(p) <= 0) || (mpz_sgn(q) <= 0))
+			throw false;
+
 		// Check whether $p$ and $q$ have appropriate sizes.
 		if ((mpz_sizeinbase(p, 2L) < F_size) ||
 			(mpz_sizeinbase(q, 2L) < G_size))
@@ -1171,6 +1175,10 @@ bool CanettiGennaroJareckiKrawczykRabinZVSS::CheckGroup
 			throw false;
 		mpz_div(k, k, q);
 
+		// Check whether $p$ and $q$ are positive.
+		if ((mpz_sgn(p) <= 0) || (mpz_sgn(q) <= 0))
+			throw false;
+
 		// Check whether $p$ and $q$ have appropriate sizes.
 		if ((mpz_sizeinbase(p, 2L) < F_size) ||
 			(mpz_sizeinbase(q, 2L) < G_size))
@@ -1858,6 +1866,10 @@ bool CanettiGennaroJareckiKrawczykRabinDKG::CheckGroup
 		if (!mpz_cmp_ui(q, 0L))
 			throw false;
 		mpz_div(k, k, q);
+
+		// Check whether $p$ and $q$ are positive.
+		if ((mpz_sgn(p) <= 0) || (mpz_sgn(q) <= 0))
+			throw false;
 
 		// Check whether $p$ and $q$ have appropriate sizes.
 		if ((mpz_sizeinbase(p, 2L) < F_size) ||
@@ -2697,6 +2709,10 @@ bool CanettiGennaroJareckiKrawczykRabinDSS::CheckGroup
 		if (!mpz_cmp_ui(q, 0L))
 			throw false;
 		mpz_div(k, k, q);
+
+		// Check whether $p$ and $q$ are positive.
+		if ((mpz_sgn(p) <= 0) || (mpz_sgn(q) <= 0))
+			throw false;
 
 		// Check whether $p$ and $q$ have appropriate sizes.
 		if ((mpz_sizeinbase(p, 2L) < F_size) ||
